@@ -396,6 +396,12 @@ def main(argv):
         "wall_s": round(wall, 2),
         "violations": len(failures) if verdict == "VIOLATION" else 0,
     }
+    if obligations == 0 or discharged == 0:
+        # nothing was verified in this run (extraction or compilation failed before any query was posed): this is not a
+        # proof-level run and is not reported as one
+        ev["level"] = "other"
+        ev["coverage"]["explanation"] = ("no obligation was discharged in this run, so nothing is claimed at proof level: "
+                                         + ("; ".join(undecided) if undecided else "no unit produced a verification query"))
     os.makedirs(os.path.join(VERIF, "evidence"), exist_ok=True)
     json.dump(ev, open(os.path.join(VERIF, "evidence", pid + ".json"), "w"), indent=1)
 
